@@ -72,6 +72,7 @@ type vfTxn struct {
 	Committed   bool
 	Wrote       bool // at least one successful write op
 	ReadOnly    bool // db.NewReadTran (no sequence numbers)
+	Big         bool // limit-exceeding transaction, operations not recorded
 	// read transactions: number of commits applied before the call / after the return
 	c0, c1  int
 	Digests []string // full-database digests taken by readers
@@ -755,6 +756,13 @@ func (s *vfSim) run(seed uint64) {
 			s.tickPump(rand.New(rand.NewPCG(seed, 701)), stopSide)
 		}()
 	}
+	if s.p.bigTxn != "" {
+		wg.Add(1)
+		go func() {
+			defer wg.Done()
+			s.runBigTxn(rand.New(rand.NewPCG(seed, 900)))
+		}()
+	}
 	wg.Wait()
 	close(stopSide)
 	side.Wait()
@@ -774,6 +782,51 @@ func (s *vfSim) run(seed uint64) {
 	s.db.ck = nil
 	s.db.Close()
 	s.judge(finalDigest)
+}
+
+// runBigTxn runs one transaction that exceeds the write limit (10000 writes) or the read limit
+// (20000 tracked reads). It must fail, report the failure, and leave no trace (its rows use keys
+// outside the normal domain, so any survivor shows in the final state comparison).
+func (s *vfSim) runBigTxn(r *rand.Rand) {
+	time.Sleep(time.Duration(r.IntN(2000)) * time.Microsecond)
+	ut := s.db.NewUpdateTran()
+	if ut == nil {
+		return
+	}
+	t := &vfTxn{Worker: 2000, Seq: 0, Start: ut.ct.start, ut: ut, Big: true}
+	s.mu.Lock()
+	s.txns = append(s.txns, t)
+	s.byUT[ut] = t
+	s.mu.Unlock()
+	var last any
+	n := 0
+	p, _ := vk.Catch(func() {
+		if s.p.bigTxn == "write" {
+			for i := 0; i < 10050; i++ {
+				ut.Output(nil, "t2", vfRec(vfRow{vfPackInt(100000 + i), "", vfPackInt(1), vfPackStr("big")}))
+				n++
+			}
+		} else {
+			for i := 0; i < 20100; i++ {
+				ut.Lookup("t2", 0, vfPackInt(200000+2*i))
+				n++
+			}
+			ut.Output(nil, "t2", vfRec(vfRow{vfPackInt(100000), "", vfPackInt(1), vfPackStr("big")}))
+		}
+	})
+	last = p
+	res := ut.Complete()
+	t.Outcome = res
+	s.rep.Trace("big %s txn: %d operations, panic=%v complete=%q", s.p.bigTxn, n, last, res)
+	if res == "" {
+		t.Committed, t.End = true, ut.ct.end
+		s.structural(fmt.Sprintf("LIMIT: a transaction exceeding the %s limit committed (%d operations, panic=%v)", s.p.bigTxn, n, last))
+	} else if strings.Contains(res, "too many") || strings.Contains(fmt.Sprint(last), "too many") {
+		s.rep.Count("txn.abort_limit_"+s.p.bigTxn, 1)
+	} else {
+		s.rep.Count("txn.big_aborted_other", 1)
+		s.rep.Seen("big_abort_reasons", vk.Trunc(res, 80))
+	}
 }
 
 func (s *vfSim) seedRows(r *rand.Rand) {
@@ -873,6 +926,9 @@ func (s *vfSim) judge(finalDigest string) {
 		seen[pr] = true
 		cl := "index-table-disagreement"
 		props := "C06 C16 C03"
+		if strings.HasPrefix(pr, "LIMIT:") {
+			cl, props = "limit-exceeding-transaction-committed", "C03"
+		}
 		if strings.Contains(pr, "Nrows") || strings.Contains(pr, "Size") || strings.Contains(pr, "deltas") {
 			cl = "statistics-mismatch"
 			props = "C03 C16 C06"
